@@ -30,12 +30,12 @@ RELATED = {
 }
 
 
-def seq_spec(prop, level_text, level_note, technique, extra_assumptions=(), required=()):
+def seq_spec(prop, level_text, level_note, technique, extra_assumptions=(), required=(), extra_engines=(), extra_props=(), extra_tie=()):
     return {
         "oracle_props": RELATED[prop],
-        "props": ["Props." + prop],
-        "tie": ["Tie.Seq"],
-        "engines": [{"engine": "seq", "timeout": 3000}],
+        "props": ["Props." + prop] + list(extra_props),
+        "tie": ["Tie.Seq"] + list(extra_tie),
+        "engines": [{"engine": "seq", "timeout": 3000}] + list(extra_engines),
         "assumptions": SEQ_ASSUMPTIONS + list(extra_assumptions),
         "trusted_extra": SEQ_TRUSTED,
         "required_theorems": list(required),
